@@ -4,6 +4,9 @@ import (
 	"bytes"
 	"encoding/json"
 	"fmt"
+	"strconv"
+	"sync/atomic"
+	"verif/internal/drv"
 
 	"github.com/Eyevinn/mp4ff/mp4"
 
@@ -278,7 +281,7 @@ func runC08(c *vf.Ctx) {
 		maxN = 9
 		c.SetBudget(8 * 60 * 1e9)
 	}
-	c.Rule = "generated progressive files: all chunkings (compositions) of N samples x {mdat before/after moov} x {32-bit, 64-bit mdat header} x {1,2 tracks, interleaved chunks} x lead-in 0/1 x trailing box {none, empty mdat (8/16-byte header), free}, sample sizes 1..3; fragmented files with 1-2 fragments; for each file BOTH decode modes, then every (start,size>=1) range inside every mdat payload through ReadData and CopyData, every sample interval 1<=a<=b<=N through CopySampleData with work buffers {0,1,2,3,5,8,payload,payload+1}, Info/Size/positions of both trees, lazy mdat Encode/EncodeSW. A case = one file (distinct by construction); 'ranges' counts the individual range/interval comparisons."
+	c.Rule = "generated progressive files: all chunkings (compositions) of N samples x {mdat before/after moov} x {32-bit, 64-bit mdat header} x {1,2 tracks, interleaved chunks} x lead-in 0/1 x trailing box {none, empty mdat (8/16-byte header), free}, sample sizes 1..3; fragmented files with 1-2 fragments; for each file BOTH decode modes, then every (start,size>=1) range inside every mdat payload through ReadData and CopyData, every sample interval 1<=a<=b<=N through CopySampleData with work buffers {0,1,2,3,5,8,payload,payload+1}, Info/Size/positions of both trees, lazy mdat Encode/EncodeSW; plus the segmenter example in default vs -lazy mode on every file of the C11 generator at every segment duration (identical output files). A case = one file (distinct by construction); 'ranges' counts the individual range/interval comparisons."
 	c.Bound = fmt.Sprintf("N <= %d samples per video track", maxN)
 	specs := c08Specs(maxN)
 	var frags []*c08FragSpec
@@ -308,6 +311,59 @@ func runC08(c *vf.Ctx) {
 		c.Transitions.Add(r)
 		c.Add("ranges_and_intervals_compared", r)
 	})
+	// the segmenter example (anchored in this property): its lazy mode (media data copied from the input with
+	// copyMediaData, mdat never in memory) must write the same files as its in-memory mode, for every file of the
+	// C11 generator and every segment duration
+	{
+		nw := 16
+		pool := make(chan *drv.Proc, nw)
+		for i := 0; i < nw; i++ {
+			pool <- drv.Start("segmenter")
+		}
+		sspecs := c11ProgSpecs(c.Tier == "thorough")
+		var n atomic.Int64
+		c.Parallel(len(sspecs), func(i int) {
+			p := <-pool
+			defer func() { pool <- p }()
+			pf, err := gen.BuildProg(sspecs[i])
+			if err != nil {
+				vf.Harness("c08 gen: %v", err)
+			}
+			var dur uint64
+			for _, s := range pf.Samples[0] {
+				dur += uint64(s.Dur)
+			}
+			for ms := 1; ms <= int(dur)+1; ms++ {
+				mem, err1 := p.Call("segment", []byte(""), []byte(strconv.Itoa(ms)), pf.Bytes)
+				lazy, err2 := p.Call("segment", []byte("-lazy"), []byte(strconv.Itoa(ms)), pf.Bytes)
+				if err1 != nil || err2 != nil {
+					vf.Harness("c08 segmenter driver: %v %v", err1, err2)
+				}
+				n.Add(1)
+				det := map[string]interface{}{"case": c08Case{Kind: "segmenter", Spec: sspecs[i]}, "ms": ms}
+				if string(mem[0]) != string(lazy[0]) {
+					c.Fail("segmenter lazy mode outcome differs", "the lazy mode of the segmenter behaves as its in-memory mode", det)
+					continue
+				}
+				if string(mem[0]) != "OK" {
+					continue
+				}
+				same := len(mem) == len(lazy)
+				for k := 1; same && k < len(mem); k++ {
+					same = bytes.Equal(mem[k], lazy[k])
+				}
+				if !same {
+					c.Fail("segmenter lazy mode output differs", "the lazy mode of the segmenter writes the same segments as its in-memory mode", det)
+				}
+			}
+		})
+		for i := 0; i < nw; i++ {
+			(<-pool).Close()
+		}
+		c.Evals.Add(n.Load())
+		c.DistinctN.Add(n.Load())
+		c.Set("segmenter_lazy_vs_memory_runs", n.Load())
+	}
 	c.Traces.Store(int64(total))
 	c.Sample(c08Case{Kind: "prog", Spec: specs[len(specs)/2]})
 	c.Sample(c08Case{Kind: "frag", Frag: frags[1]})
@@ -320,6 +376,10 @@ func replayC08(c *vf.Ctx, detail json.RawMessage) {
 	}
 	if err := json.Unmarshal(detail, &d); err != nil {
 		vf.Harness("bad detail: %v", err)
+	}
+	if d.Case.Kind == "segmenter" {
+		runC08(c) // the segmenter comparison is cheap: re-run the check
+		return
 	}
 	if d.Case.Kind == "prog" {
 		pf, err := gen.BuildProg(d.Case.Spec)
